@@ -148,3 +148,37 @@ def apply_writes_arg_sets():
         em = PlanEntityEmitter(ProgramDiagnostics(log_level="error"), c["m"])
         cases.append({"self": em, "entity": c["ent"](), "property_writes": c["writes"], "placement": None})
     return cases
+
+
+# =================================================================================================
+# ExpressionLowerer._is_simple_source_ref (what may become a member of a wire merge): only a reference whose producer node
+# IS one physical source — a constant, an entity property read, an existing merge.  A `.output` read of an entity is NOT
+# such a node (every read creates a fresh node for the same chest, so the merge's "distinct node ids" test cannot see that
+# one chest is wired twice); arithmetic / decider results are not merged either (they keep their combinator).
+# =================================================================================================
+ELQ = "dsl_compiler/src/lowering/expression_lowerer.py::ExpressionLowerer."
+_PRODUCERS = ("IRConst", "IREntityPropRead", "IRWireMerge", "IREntityOutput", "IRArith", "IRDecider", "IRMemRead")
+_MERGEABLE = {"IRConst", "IREntityPropRead", "IRWireMerge"}
+
+
+def _simple_contract(kind):
+    def get_op(ex, a):
+        if kind is None:
+            return None
+        return SObj([kind], "producer", lazy=True)
+
+    def post(a, res):
+        return (res is True or res == True) if kind in _MERGEABLE else (res is False or res == False)  # noqa: E712
+
+    return Contract(
+        qualname=ELQ + "_is_simple_source_ref",
+        params={"self": ty.TObj("ExpressionLowerer", only=("ExpressionLowerer",)), "value_ref": ty.TUnion((ty.TObj("SignalRef", only=("SignalRef",)), ty.Int))},
+        ensures=[("mergeable exactly for constants, entity property reads and merges", lambda a, res: post(a, res) if isinstance(a.value_ref, SObj) else (res is False or res == False))],  # noqa: E712
+        uses={"IRBuilder.get_operation": Contract(qualname="dsl_compiler/src/ir/builder.py::IRBuilder.get_operation", params={"self": ty.TOpaque("b"), "node_id": ty.TOpaque("i")},
+                                                  effect=get_op, verify=False, note="the producer node of the reference")},
+        dynamic_types={"self": {"ir_builder": ty.TObj("IRBuilder", only=("IRBuilder",))}},
+        properties=("C06", "C01"), min_obligations=1, no_replay=True, note=f"producer {kind}")
+
+
+for _k in _PRODUCERS + (None,):
+    CONTRACTS.append(_simple_contract(_k))
